@@ -9,4 +9,5 @@ import GoMC.Props.C01
 #print axioms GoMC.Props.C01.C01_decode_raw
 #print axioms GoMC.Props.C01.C01_no_overread
 #print axioms GoMC.Props.C01.C01_encode_conforms_partial
+#print axioms GoMC.Props.C01.C01_encode_conforms_value_partial
 #print axioms GoMC.Props.C01.C01_decode_typed_partial
